@@ -50,7 +50,7 @@ PROPS["C12"] = {
                     "STROBE and RFC 9496 vectors and against x/crypto/sha3)",
                     "Merlin behaves as a random oracle for the constructed inputs (no accidental validity of altered triples)"],
     "units": [{
-        "pkg": "primitives/sr25519", "configs": ALL4,
+        "pkg": "primitives/sr25519", "configs": ALL4T,
         "tests": {
             "TestC12Sign": T(2400, 30000, shards={"quick": 6, "thorough": 16}),
             "TestC12SigBits": LIST(),
